@@ -103,6 +103,34 @@ theorem remove_absent_noop (s : TState) (p : Nat) (al : List (Nat × RL)) (h : h
 
 example : hasPod (addT TState.empty 7 [(0, [some 50])]) 7 = true := by decide
 
+/-! ### 2. used = Σ live allocations — step equations only (partial)
+
+FULL STATEMENT (not yet proved in Lean; checked on the code by the oracle clause `C07:used-ne-sum-of-live`):
+  `used_eq_sum : ∀ ops, HistWF ops → ∀ m k, drVal (run empty ops).used m k = Σ_{(p, rec) ∈ (run empty ops).pods} drVal rec m k`
+  where `HistWF` = amounts ≥ 0, minors of one allocation distinct, every removal carries the recorded allocation.
+  Missing: the induction over histories (pods keys distinct, recorded amounts ≥ 0 ⇒ the clamp in `usedSub` is the identity).
+  Proved below: each accepted add raises `used` by exactly the supplied amounts, each accepted removal lowers it by
+  exactly the CALLER-SUPPLIED amounts, truncated at 0 (so a stale removal is where the sum can break). -/
+
+theorem used_step_add_partial (s : TState) (p : Nat) (al : List (Nat × RL)) (h : hasPod s p = false) (m k : Nat) :
+    drVal (addT s p al).used m k = drVal s.used m k + alSum al m k := by
+  simp only [addT, h]
+  show drVal (usedAdd s.used al) m k = _
+  exact usedAdd_val al s.used m k
+
+theorem used_step_remove_partial (s : TState) (p : Nat) (al : List (Nat × RL)) (h : hasPod s p = true)
+    (hal : AlNonneg al) (hu : DRNonneg s.used) (m k : Nat) :
+    drVal (removeT s p al).used m k = max 0 (drVal s.used m k - alSum al m k) := by
+  simp only [removeT, h]
+  show drVal (usedSub s.used al) m k = _
+  exact usedSub_val al hal s.used m k (hu m k)
+
+/-- a removal that carries something else than what was recorded leaves `used` ≠ Σ live (here: pod 1 holds 50, the
+    removal event says 20; afterwards nothing is live but 30 stay in use) -/
+theorem stale_remove_counterexample :
+    let s := removeT (addT (refreshT TState.empty [(0, [some 100])]) 1 [(0, [some 50])]) 1 [(0, [some 20])]
+    s.pods = [] ∧ drVal s.used 0 0 = 30 := by decide
+
 /-! ### 3. over-commit: who can create it -/
 
 /-- a removal never increases any in-use amount -/
